@@ -6,6 +6,7 @@
 EXTENDS LinksParse, Json
 CONSTANTS MaxItems,   \* longest item sequence for the shapes with one link
           PairItems,  \* longest item sequence for the shapes with two links or inside a sub-command
+          OptItems,   \* longest item sequence for the shapes with an Optional source
           Emit
 
 L(srcs, fn, tgt) == [srcs |-> srcs, fn |-> fn, tgt |-> tgt]
@@ -76,7 +77,7 @@ EnvFirst(s) == \A i, j \in DOMAIN s : (i < j /\ s[j].chan = "env") => s[i].chan 
 \* with links): such sequences are left out
 NoBadSl(s) == ~(\E i, j \in DOMAIN s : s[i].key = "sl" /\ s[j].key = "s" /\ s[j].val.k = "spec" /\ s[j].val.c = "SrcNoL")
 NoDupEnv(s) == \A i, j \in DOMAIN s : (i # j /\ s[i].chan = "env") => s[i].key # s[j].key \/ s[j].chan # "env"
-Bound(sh) == IF Len(sh.links) > 1 \/ sh.sub THEN PairItems ELSE MaxItems
+Bound(sh) == IF sh.links \in OptLinkSets THEN OptItems ELSE IF Len(sh.links) > 1 \/ sh.sub THEN PairItems ELSE MaxItems
 ArgsSeqs(sh) == {s \in UNION {[1..n -> ItemsOf(sh, {"env", "cfg", "argv"})] : n \in 0..Bound(sh)} : EnvFirst(s) /\ NoDupEnv(s) /\ NoBadSl(s)}
 \* parse_object: one dict; keys are distinct, the order is immaterial (one representative)
 ObjSeqs(sh) == {s \in UNION {[1..n -> ItemsOf(sh, {"obj"})] : n \in 1..Bound(sh)} :
